@@ -16,11 +16,11 @@ ROUND2_MISSED_AT_FIRST = {"C01_C", "C01_D", "C02_D", "C03_C", "C03_D", "C04_D", 
                           "C19_D", "C20_C", "C20_D"}
 
 # round 3 (variants E, F): same protocol, after the round-2 rules existed
-ROUND3_MISSED_AT_FIRST = {"C03_E", "C05_E", "C06_E", "C06_F", "C08_E", "C09_F", "C10_F", "C11_E", "C11_F", "C12_E", "C12_F", "C13_E", "C13_F", "C14_E", "C14_F", "C15_F",
+ROUND3_MISSED_AT_FIRST = {"C02_E", "C03_E", "C05_E", "C06_E", "C06_F", "C08_E", "C09_F", "C10_F", "C11_E", "C11_F", "C12_E", "C12_F", "C13_E", "C13_F", "C14_E", "C14_F", "C15_F",
                           "C16_E", "C16_F", "C17_F", "C18_F", "C19_E"}
 
 # round 4 (variants G, H): after the round-3 rules and the first mutation-map rules existed
-ROUND4_MISSED_AT_FIRST = {"C01_G", "C04_G", "C06_G", "C08_H", "C09_H", "C10_H", "C13_G", "C13_H", "C14_G", "C16_G", "C16_H", "C17_H", "C18_H", "C20_H"}
+ROUND4_MISSED_AT_FIRST = {"C02_H", "C01_G", "C04_G", "C06_G", "C08_H", "C09_H", "C10_H", "C13_G", "C13_H", "C14_G", "C16_G", "C16_H", "C17_H", "C18_H", "C20_H"}
 
 def run(d):
     patch = os.path.join(d, "patch.diff")
